@@ -23,29 +23,6 @@ import (
 	"unsafe"
 )
 
-// only be used when NewRequiredFieldNotSetException
-func lookupFieldName(rt reflect.Type, offset uintptr, ft reflect.Type) string {
-	for rt.Kind() == reflect.Ptr {
-		rt = rt.Elem()
-	}
-	// zero-size fields (blank markers, fields of an empty struct type) share their offset with
-	// the field that follows them: the Go type of the field decides
-	name := "unknown"
-	for i := 0; i < rt.NumField(); i++ {
-		f := rt.Field(i)
-		if f.Offset != offset {
-			continue
-		}
-		if f.Type == ft {
-			return f.Name
-		}
-		if name == "unknown" {
-			name = f.Name
-		}
-	}
-	return name
-}
-
 func withFieldErr(err error, sd *structDesc, f *tField) error {
 	return fmt.Errorf("%q field %d err: %w", sd.Name(), f.ID, err)
 }
